@@ -1193,6 +1193,8 @@ class F64(_ScalarLike):
             return F64(ir.fconst(float(x)))
         if isinstance(x, BVS):
             return x.to_f64()
+        if isinstance(x, SC) and x.isconst and x.isreal:
+            return F64(ir.fconst(float(x.const_value())))      # exact constants created by typed constructors (np.zeros, ...)
         return NotImplemented
 
     def to_int(self, dtype):
@@ -1288,6 +1290,14 @@ class F64(_ScalarLike):
         o = F64.lift(o)
         # numpy maximum propagates NaN
         lt = ir.fcmp('fp.lt', self.n, o.n)
+        r = ir.rite(lt, o.n, self.n)
+        nan = ir.bor(ir.fpred('fp.isNaN', self.n), ir.fpred('fp.isNaN', o.n))
+        return F64(ir.rite(nan, ir.fconst(float('nan')), r))
+
+    def minimum(self, o):
+        o = F64.lift(o)
+        # numpy minimum propagates NaN
+        lt = ir.fcmp('fp.lt', o.n, self.n)
         r = ir.rite(lt, o.n, self.n)
         nan = ir.bor(ir.fpred('fp.isNaN', self.n), ir.fpred('fp.isNaN', o.n))
         return F64(ir.rite(nan, ir.fconst(float('nan')), r))
